@@ -96,24 +96,40 @@ KvRec(r) ==
     ELSE Good
 
 (* ---- caller operations -------------------------------------------------------------- *)
+\* The law of the caller API, judged WITHOUT the lexer model: the source token stream is the one
+\* observed in a plain run of the same text (r.src).  Whatever the script of calls, the tokens
+\* delivered must be the push-back stack (last in, first out) in front of that source; peek is
+\* call + push_back; expect / skipping_newlines / block drop NEWLINEs from that same merged stream.
+\* Token types and values are compared (line numbers only between delivery forms).
+SrcOf(p) == [toks |-> IF p.err.id = "none" THEN SubSeq(p.toks, 1, Len(p.toks) - 2) ELSE p.toks,
+             err |-> IF p.err.id = "none" THEN NoErrL ELSE [id |-> "error", arg |-> 0, l |-> p.err.l]]
+One(c) == [s |-> c.s, out |-> <<c.res>>, err |-> c.err]
 RECURSIVE CallsFrom(_, _, _, _, _)
 CallsFrom(L, script, j, s, acc) ==
     IF j > Len(script) THEN [res |-> acc, err |-> NoErrL]
     ELSE LET op == script[j]
-             c == CASE op.op = "call" -> Call(L, s)
-                    [] op.op = "peek" -> Peek(L, s)
-                    [] op.op = "push" -> PushBack(s, op.t, op.v)
-                    [] op.op = "expect" -> ExpectFrom(L, s, op.t, op.skip)
-         IN  IF c.err # NoErrL THEN [res |-> acc, err |-> c.err]
-             ELSE CallsFrom(L, script, j + 1, c.s, Append(acc, [t |-> c.res.t, v |-> c.res.v, l |-> c.s.l]))
+             c == CASE op.op = "call" -> One(Call(L, s))
+                    [] op.op = "peek" -> One(Peek(L, s))
+                    [] op.op = "push" -> One(PushBack(s, op.t, op.v))
+                    [] op.op = "expect" -> One(ExpectFrom(L, s, op.t, op.skip))
+                    [] op.op = "skipnl" -> SkipNlFrom(L, s, op.n, <<>>)
+                    [] op.op = "block" -> BlockFrom(L, s, op.n, op.brace)
+         IN  IF c.err # NoErrL THEN [res |-> acc \o (IF op.op \in {"skipnl", "block"} THEN c.out ELSE <<>>), err |-> c.err]
+             ELSE CallsFrom(L, script, j + 1, c.s, acc \o c.out)
+SrcShapeOK(p) == p.err.id # "none" \/ (Len(p.toks) >= 3 /\ p.toks[Len(p.toks) - 2].t = "EOF")
 CallsRec(r) ==
-    LET L == Lex(r.text, CfOf(r))
+    LET L == SrcOf(r.src)
         exp == CallsFrom(L, r.script, 1, CallInit, <<>>)
+        want == [res |-> TV(exp.res), errk |-> ErrKind(exp.err)]
     IN  IF \E k \in 1..Len(r.outs) : r.outs[k].etype \notin {"", r.etype}
             THEN Bad("calls.total", [forms |-> r.outs[CHOOSE k \in 1..Len(r.outs) : r.outs[k].etype \notin {"", r.etype}].forms])
-        ELSE IF Len(r.outs) # 1 THEN Bad("calls.chunking", [forms |-> r.outs[2].forms, exp |-> exp])
-        ELSE IF r.outs[1].err.id # ErrKind(exp.err) THEN Bad("diag.calls.error", exp)
-        ELSE IF r.outs[1].res # exp.res THEN Bad("diag.calls.results", exp)
+        ELSE IF Len(r.outs) # 1 THEN Bad("calls.chunking", [forms |-> r.outs[2].forms])
+        ELSE IF ~SrcShapeOK(r.src) THEN Good                     \* the plain run itself is judged by the lex records
+        ELSE IF r.outs[1].err.id # want.errk THEN Bad("calls.error", want)
+        ELSE IF TV(r.outs[1].res) # want.res THEN Bad("calls.results", want)
+        \* the same script on an IterTokenizer fed with the observed source tokens
+        ELSE IF r.iter.used /\ r.iter.etype \notin {"", r.etype} THEN Bad("calls.iter.total", want)
+        ELSE IF r.iter.used /\ (r.iter.err.id # want.errk \/ TV(r.iter.res) # want.res) THEN Bad("calls.iter.results", want)
         ELSE Good
 
 Verdict(r) == CASE r.k = "lex" -> LexRec(r)
